@@ -1,8 +1,10 @@
 SPECIFICATION GenSpec
 CONSTANTS
-  Idents <- MCIdents
-  Edges <- MCEdges
-  ParentOf <- MCParent
+  Idents <- GenIdents
+  Edges <- GenEdges
+  ParentOf <- GenParent
+  Fresh <- GenFresh
+  Focus = "any"
   MaxWrites = 6
   MaxOutages = 2
   AsCoded = FALSE
